@@ -230,7 +230,7 @@ def run_tree(acc: Acc, ctx: Ctx, n_leaves: int, tree, pairs) -> None:
                                                                                    "conjunction": conj, "disjunction": disj, "row": list(ROWS[0])},
                         want0, got0, f"{text!r} activated by {type(method).__name__} with {conj}/{disj}: {got0}, grammar value {want0}")
     # the stored degree survives triggering, also when the conclusions carry hedges and the inputs are arrays
-    hedged = fl.Rule.create(f"if {text} then o is very p and o is not q", engine)
+    hedged = fl.Rule.create(f"if {text} then o is p and o is very p and o is not q", engine)  # (first conclusion plain: it receives the rule's own degree array)
     block.activation = fl.General()
     block.rules = [hedged]
     ctx.a.value, ctx.b.value = batch_a, batch_b
